@@ -88,6 +88,7 @@ def table_of(fb, ctor):
 def run(fb, rep, tier):
     _run(fb, rep, tier)
     bool_literals(fb, rep)
+    real_values_notation(fb, rep)
 
 
 def _run(fb, rep, tier):
@@ -547,6 +548,14 @@ def front_ends(fb, rep):
     for f in (a, b):
         seeds = [n for n in f.nodes if M.is_this_call(n, 'setRandomSeed')]
         rep.check(len(seeds) == 1, 'R15.6', f.short + '|uint|random_seed', f.where(), 'uint:random_seed reaches setRandomSeed', 'uint:random_seed does not reach setRandomSeed')
+
+
+def real_values_notation(fb, rep):
+    """R15.8: see c14.real_notation - re-loading a saved settings file reproduces real parameters only if they were written in scientific notation"""
+    import c14
+    rep.rule('R15.8', 'saveSettingsFile writes the real parameters in scientific notation', floor=1)
+    ok, wh, det = c14.real_notation(fb)
+    rep.check(ok, 'R15.8', 'saveSettingsFile|real|notation', wh, det, det)
 
 
 def bool_literals(fb, rep):
